@@ -24,8 +24,12 @@ impl-trace : Trace_SpanEndImpl.tla: a sample of the same recorded executions (re
 import glob
 import json
 import os
+import random
 import re
+import time
 from concurrent.futures import ThreadPoolExecutor
+
+import vlib
 
 S = "SpanEnd"
 WINDOW = ["span.end.checked", "span.end.taskended", "span.end.marked"]
@@ -226,25 +230,49 @@ def impl_validate(ctx, traces, consts, max_scen, max_groups, per_group, max_line
     groups = {}
     for k in elig:
         c = cfgs[k]
-        key = (c["rt"], c["nprocs"], c["lim"], c["sampled"], c["zero"], c["withstart"], c["reentreg"], c["hooks"])
+        # (WaitFor changes what a registrar of that name may do: part of the key; every other name set is merged)
+        key = (c["rt"], c["nprocs"], c["lim"], c["sampled"], c["zero"], c["withstart"], c["reentreg"], c["hooks"],
+               tuple(icfgs[k]["waitfor"]))
         groups.setdefault(key, []).append(k)
-    # sample: groups in order of first appearance (scripts first: behaviours, directed schedules; then random), round-robin
-    # over the sources inside a group, directed schedules first
-    def directed_first(k):
-        nm = cfgs[k].get("name", "")
-        return (0 if k[0] == "scripts" and not re.match(r"(all|sim|uall|usim|udev|ro|prov|st|z0)-", nm) else 1, order.index(k))
+    # sample: groups chosen greedily so that together they cover as many features as possible (constants of the key,
+    # kinds of processes present, source), seeded tie-break; inside a group the directed schedules first, then a
+    # seeded sample of the rest
+    rnd = random.Random(ctx.seed * 7919 + len(elig))
+
+    def directed(k):
+        return k[0] == "scripts" and not re.match(r"(all|sim|uall|usim|udev|ro|prov|st|z0)-", cfgs[k].get("name", ""))
+
+    def features(g):
+        f = {"rt=%s" % g[0], "nprocs=%d" % g[1], "lim=%d" % min(g[2], 1), "sampled=%s" % g[3], "zero=%s" % g[4], "withstart=%s" % g[5],
+             "reentreg=%s" % g[6], "waitfor=%d" % len(g[8])}
+        for k in groups[g]:
+            f.add("src=" + ("directed" if directed(k) else k[0]))
+            f |= {x for x in ("panickers", "usermut", "evmut", "zeromut", "children", "readers", "registrars", "stoppers", "unregs")
+                  if icfgs[k][x]}
+        return f
+    feats = {g: features(g) for g in groups}
+    left = sorted(groups, key=lambda g: order.index(groups[g][0]))
+    rnd.shuffle(left)
+    gkeys, covered = [], set()
+    while left and len(gkeys) < max_groups:
+        g = max(left, key=lambda x: len(feats[x] - covered))     # (max keeps the first of equals: the shuffled order)
+        gkeys.append(g)
+        covered |= feats[g]
+        left.remove(g)
     chosen = []
-    gkeys = sorted(groups, key=lambda g: (-len({cfgs[k].get("name", "").split("-e")[0] for k in groups[g]}), order.index(groups[g][0])))
-    for g in gkeys[:max_groups]:
-        ks = sorted(groups[g], key=directed_first)[:per_group]
-        chosen.append((g, sorted(ks, key=order.index)))
+    for g in gkeys:
+        d = [k for k in groups[g] if directed(k)]
+        o = [k for k in groups[g] if not directed(k)]
+        rnd.shuffle(d)
+        rnd.shuffle(o)
+        chosen.append((g, sorted((d + o)[:per_group], key=order.index)))
     total = sum(len(ks) for _, ks in chosen)
     while total > max_scen:          # trim the largest groups first
         g, ks = max(chosen, key=lambda x: len(x[1]))
         ks.pop()
         total -= 1
     stats = {"recorded": len(order), "eligible": len(elig), "ineligible": why, "groups_available": len(groups),
-             "groups": len(chosen), "scenarios": total, "accepted": 0, "lines": 0, "states": 0, "tlc_starts": 0, "wall_s": 0.0,
+             "groups": len(chosen), "scenarios": total, "features_covered": sorted(covered), "accepted": 0, "lines": 0, "states": 0, "tlc_starts": 0, "wall_s": 0.0,
              "drift": [], "errors": [], "model_monitor_bad": []}
 
     def one(gi, key, ks):
@@ -267,7 +295,8 @@ def impl_validate(ctx, traces, consts, max_scen, max_groups, per_group, max_line
                     spans.append((k, n + 1, n + len(scen[k])))
                     n += len(scen[k])
             r = ctx.tlc(S, "Trace_SpanEndImpl", "Trace_SpanEndImpl.cfg", workers=1, deque=True, timeout=timeout, heap="2g",
-                        defines=consts, extra_files={"trace.ndjson": f}, name="impl-%d" % gi, must_pass=False, count=False)
+                        defines=dict(consts, AHEAD="TRUE"), extra_files={"trace.ndjson": f}, name="impl-%d" % gi, must_pass=False,
+                        count=False)
             out["starts"] += 1
             out["states"] += r["distinct"]
             acc = hwm = None
@@ -294,15 +323,27 @@ def impl_validate(ctx, traces, consts, max_scen, max_groups, per_group, max_line
             k, a, b = spans[j]
             out["accepted"] += [x for x, _, _ in spans[:j]]
             out["lines"] += a - 1
-            ev = scen[k][min(hwm - a, len(scen[k]) - 1)][1]
-            out["drift"].append({"scenario": "%s/%d" % k, "name": cfgs[k].get("name", ""), "line_in_scenario": hwm - a + 1,
-                                 "first_offending_line": ev,
-                                 "before": [x[1] for x in scen[k][max(0, hwm - a - 3):hwm - a]],
+            at = hwm - a + 1
+            # once more alone and without the look-ahead (bounded): the line whose own conditions fail
+            f1 = os.path.join(ctx.work, "impl-%d-drift%d.ndjson" % (gi, len(out["drift"])))
+            with open(f1, "w") as w:
+                for i, (ln, r) in enumerate(scen[k]):
+                    w.write(json.dumps(dict(r, **{x: icfgs[k][x] for x in ILISTS})) + "\n" if i == 0 else ln)
+            r1 = ctx.tlc(S, "Trace_SpanEndImpl", "Trace_SpanEndImpl.cfg", workers=1, deque=True, timeout=90, heap="2g",
+                         defines=dict(consts, AHEAD="FALSE"), extra_files={"trace.ndjson": f1},
+                         name="impl-%d-drift%d" % (gi, len(out["drift"])), must_pass=False, count=False)
+            out["starts"] += 1
+            h1 = [int(pr.split()[1]) for pr in r1["prints"] if isinstance(pr, str) and pr.startswith("HWM ")]
+            if h1 and not (r1["timed_out"] or r1["error"] or r1["violated"]) and h1[0] <= len(scen[k]):
+                at = h1[0]
+            ev = scen[k][min(at, len(scen[k])) - 1][1]
+            out["drift"].append({"scenario": "%s/%d" % k, "name": cfgs[k].get("name", ""), "line_in_scenario": at,
+                                 "first_offending_line": ev, "line_with_lookahead": hwm - a + 1,
+                                 "before": [x[1] for x in scen[k][max(0, at - 4):at - 1]],
                                  "cfg": {x: cfgs[k][x] for x in ("rt", "nprocs", "lim", "sampled", "zero", "withstart")}})
             rest = [x for x, _, _ in spans[j + 1:]]
         return out
 
-    import time
     t0 = time.time()
     with ThreadPoolExecutor(max_workers=4) as ex:
         outs = list(ex.map(lambda a: one(a[0], a[1][0], a[1][1]), list(enumerate(chosen))))
@@ -566,14 +607,16 @@ def run(ctx):
         return tf, res
 
     if scenarios:
-        tf, res = harness(binp, "scripts", "scripts", ["-in", sfile])
+        tf, res = harness(binp, "scripts", "scripts", ["-in", sfile, "-impl", "-1"])
         traces.append((tf, "scripts"))
         ctx.add_samples([{"behaviour_script": scenarios[0]["script"][:40]}])
     # ------------------------------------------------------------ code -> spec: random scenarios
     chunks = 6 if thorough else 1
     per = 4000 if thorough else 1500
+    impl_random = 400 if thorough else 60    # the first N random scenarios also record the implementation-level trace
     for i in range(chunks):
-        tf, res = harness(binp, "random", "random%d" % i, ["-n", str(per)], seed=ctx.seed * 1000 + i)
+        tf, res = harness(binp, "random", "random%d" % i, ["-n", str(per)] + (["-impl", str(impl_random)] if i == 0 else []),
+                          seed=ctx.seed * 1000 + i)
         traces.append((tf, "random"))
         if i == 0:
             ctx.add_samples(res["samples"][:1])
@@ -665,6 +708,31 @@ def run(ctx):
     ctx.extra["behaviours_with_other_outcome_than_model"] = ndrift
     ctx.traces_validated += executed
     ctx.evaluations += executed
+    # ------------------------------------------------------------ impl-trace: code -> spec, second level
+    # The same recorded executions against the ACTIONS of SpanEnd.tla (Trace_SpanEndImpl.tla).  Verdict rule: a trace
+    # the contract accepts but SpanEnd.tla cannot explain is model drift: evidence and a NOTE, never exit 1, and exit 2
+    # only if nothing of the sample could be explained at all.
+    consts = {"SHAPE": shape, "ALLOWKNOWN": "TRUE" if known_model else "FALSE", "MSHAPE": ms if ms != "unknown" else "locked",
+              "PSHAPE": ps if ps != "unknown" else "locked", "PRECHECK": "TRUE" if precheck else "FALSE", "UNREGSHAPE": unreg}
+    lim = dict(max_scen=100000, max_groups=1000, per_group=100000, max_lines=600, timeout=900) if thorough else \
+        dict(max_scen=120, max_groups=8, per_group=25, max_lines=250, timeout=120)
+    iv = impl_validate(ctx, [(tf, label) for tf, label in traces if label in ("scripts", "random")], consts, **lim)
+    ctx.extra["impl_trace"] = {"scenarios": iv["scenarios"], "accepted": iv["accepted"], "drift": iv["drift"],
+                               "drift_count": iv["drift_count"], "stats": {k: v for k, v in iv.items() if k != "drift"}}
+    ctx.traces_validated += iv["accepted"]
+    for d in iv["drift"]:
+        vlib.log("NOTE: impl-trace model drift (evidence, not a verdict): scenario %s %s: SpanEnd.tla (shape %s) cannot explain line %d: %s"
+                 % (d["scenario"], d["name"], shape, d["line_in_scenario"],
+                    json.dumps({k: v for k, v in d["first_offending_line"].items() if k in
+                                ("ev", "op", "pid", "proc", "point", "p", "span", "child", "fullp", "val", "arg")}, sort_keys=True)))
+    if iv["drift_count"] > len(iv["drift"]):
+        vlib.log("NOTE: impl-trace model drift: %d scenarios in all (first %d shown)" % (iv["drift_count"], len(iv["drift"])))
+    for e in iv["errors"]:
+        vlib.log("NOTE: impl-trace: TLC could not finish a file (%s, %d scenarios from %s): %s" % (e["error"], e["scenarios"], e["first"], e["out"]))
+    if iv["scenarios"] > 0 and iv["accepted"] == 0:
+        ctx.note_inconclusive("impl-trace: none of the %d sampled real executions could be explained by the actions of SpanEnd.tla "
+                              "(shape %s): the implementation-shaped model has drifted from the code (%d drift, %d TLC errors)"
+                              % (iv["scenarios"], shape, iv["drift_count"], len(iv["errors"])))
     if not hooks:
         ctx.note_inconclusive("the tree has no span.end.* instrumentation points at all (hook infrastructure missing): "
                               "gate replay of TLC behaviours and directed schedules was skipped; only model checking, "
@@ -683,6 +751,7 @@ def run(ctx):
         "a scenario that does not finish within 20 s + gate timeouts is reported as a deadlock only if a goroutine is "
         "blocked in sync.Mutex.Lock inside sdk/trace; otherwise it is inconclusive",
         "attribute/event/link limits are not reached (default 128); limits are C04's subject",
+        "impl-trace validates a sample (scenarios with a provider-user goroutine are outside SpanEnd.tla); model drift is evidence only",
     ]
 
 
